@@ -236,6 +236,10 @@ def compile : Nat → Nat → Nat → E → Option (List Ins)
     | .native .each f (.mkList items) => some (items.map (fun _ => Ins.callNative (f + 1)))
     | .ret (.lit _) => some [.ret]
     | .brk => some (List.replicate op Ins.tryEnd ++ [.brk])
+    | .brkV e => do
+      -- the value's code comes first: it still runs under the try blocks the break then leaves
+      let c ← compile fuel depth op e
+      pure (c ++ List.replicate op Ins.tryEnd ++ [.brk])
     | .cont => some (List.replicate op Ins.tryEnd ++ [.cont])
     | .forList _ (.mkList items) body => do
       let b ← compile fuel depth 0 body
